@@ -183,8 +183,7 @@ func (matrix *SparseInt8Matrix) SLICE(rfrom, rto, cfrom, cto int) *SparseInt8Mat
   return &m
 }
 func (matrix *SparseInt8Matrix) AsSparseInt8Vector() *SparseInt8Vector {
-  if matrix.cols < matrix.colMax - matrix.colOffset ||
-    (matrix.rows < matrix.rowMax - matrix.rowOffset) {
+  if matrix.cols < matrix.colMax || matrix.rows < matrix.rowMax {
     n, m := matrix.Dims()
     v := nilSparseInt8Vector(n*m)
     for it := matrix.ConstIterator(); it.Ok(); it.Next() {
@@ -271,6 +270,10 @@ func (matrix *SparseInt8Matrix) T() Matrix {
   for k1, value := range matrix.values.values {
     // transform indices so that iterators operate correctly
     i1, j1 := matrix.ij(k1)
+    if i1 < 0 || j1 < 0 || i1 >= matrix.rows || j1 >= matrix.cols {
+      // element of the parent storage that is not part of this view
+      continue
+    }
     k2 := m.index(j1, i1)
     m.values.values[k2] = value
     m.values.indexInsert(k2)
